@@ -14,12 +14,12 @@ def msg_k(k, big=False):
     if big and k % 2 == 0:
         # longer than any slice a transport might cut a message into
         return Message(device="D", message="m%03d" % k + "x" * BIG)
-    if k % 5 == 3:
+    if k % 3 == 1:
         # a transport must not treat one kind of message differently from another: an image update among notices
         from indi.message import SetBLOBVector
         from indi.message.one_parts import OneBLOB
         return SetBLOBVector(device="D", name="IMG", state="Ok", children=[OneBLOB(name="m%03d" % k, size="3", format=".x", value="QUJD")])
-    if k % 5 == 4:
+    if k % 3 == 2:
         from indi.message import SetNumberVector
         from indi.message.one_parts import OneNumber
         return SetNumberVector(device="D", name="N", state="Busy", children=[OneNumber(name="m%03d" % k, value="1.5")])
